@@ -159,7 +159,7 @@ def run_fit(job):
             res["c08"].append(({"api": "weights_", "kind": "error_guarantee", **sig0}, f"error(Q) = {errQ} > OPT {opt} + 2*best_gap_ {g}", detail))
         if maxc > (1 + 2 * g) / B + SLACK:
             res["c08"].append(({"api": "weights_", "kind": "violation_guarantee", **sig0}, f"constraint exceeds its bound by {maxc} > (1+2g)/B = {(1 + 2 * g) / B}", detail))
-    nu_used = iters[-1]["nu"]
+    nu_used = nu if nu is not None else iters[-1]["nu"]          # the threshold that was REQUESTED (derived by fit only when None was requested)
     if eg.last_iter_ < max_iter - 1 and not (g < nu_used + 1e-8):
         res["c08"].append(({"api": "best_gap_", "kind": "early_stop_uncertified", **sig0}, f"stopped after {eg.last_iter_ + 1} < {max_iter} iterations but best_gap_ {g} >= nu {nu_used}", detail))
     if want_c10:
